@@ -1802,6 +1802,13 @@ func (m *Model) applyReconfig(c Call, o Obs) []Hit {
 		}
 		s.Cfg.Retention = d
 		s.Reconf = true
+	case strings.HasPrefix(c.Op.Tgt, "dl:"):
+		// "dl:<topic>": dead-letter policy re-targeted (max 1 attempt); "dl:none": removed
+		if t := strings.TrimPrefix(c.Op.Tgt, "dl:"); t == "none" {
+			s.Cfg.DLTopic, s.Cfg.MaxAttempts = "", 0
+		} else {
+			s.Cfg.DLTopic, s.Cfg.MaxAttempts = t, 1
+		}
 	case c.Op.Tgt == "retry:1s":
 		s.Cfg.MinBackoff, s.Cfg.MaxBackoff = time.Second, 0
 	case c.Op.Tgt == "retry:30s-max40s":
